@@ -311,10 +311,18 @@ macro_rules! lens8 {
     };
 }
 const LENS: &[usize] = &[0, 1, 2, 3, 4, 5, 6, 7, 8, 12, 16, 17, 33, 64, 256, 1024];
+/// plain u32 elements are cheap to instantiate: more lengths, in particular non-multiples of block sizes
+macro_rules! lens_wide {
+    ($n:expr, $N:ident, $body:expr) => {
+        len_match!($n, $N, $body, [0: U0, 1: U1, 2: U2, 3: U3, 4: U4, 5: U5, 6: U6, 7: U7, 8: U8, 12: U12, 16: U16, 17: U17, 33: U33, 64: U64, 256: U256, 1024: U1024,
+            9: U9, 15: U15, 31: U31, 63: U63, 65: U65, 100: U100, 127: U127, 129: U129, 200: U200, 255: U255, 257: U257, 300: U300, 511: U511, 513: U513, 1000: U1000, 1023: U1023, 2048: U2048, 4096: U4096])
+    };
+}
+const WIDE_EXTRA: &[usize] = &[9, 15, 31, 63, 65, 100, 127, 129, 200, 255, 257, 300, 511, 513, 1000, 1023, 2048, 4096];
 
 pub fn exec(case: &Case, acc: &mut Acc) -> Result<(), String> {
     match case.kind {
-        Kind::U32 => lens8!(case.n, N, exec_typed::<u32, N>(case, acc)),
+        Kind::U32 => lens_wide!(case.n, N, exec_typed::<u32, N>(case, acc)),
         Kind::Str => lens8!(case.n, N, exec_typed::<String, N>(case, acc)),
         Kind::Tracked => lens8!(case.n, N, exec_typed::<Tracked, N>(case, acc)),
         Kind::Zst => lens8!(case.n, N, exec_typed::<TrackedZst, N>(case, acc)),
@@ -325,8 +333,12 @@ pub fn exec(case: &Case, acc: &mut Acc) -> Result<(), String> {
 fn grid(draws: u32, seed: u64) -> Vec<Case> {
     let mut out = vec![];
     let mut x = seed.wrapping_mul(0x9E37_79B9_7F4A_7C15) | 1;
-    for &n in LENS {
+    let all: Vec<(usize, bool)> = LENS.iter().map(|n| (*n, false)).chain(WIDE_EXTRA.iter().map(|n| (*n, true))).collect();
+    for &(n, wide_only) in &all {
         for kind in [Kind::U32, Kind::Str, Kind::Tracked, Kind::Zst, Kind::Gen] {
+            if wide_only && kind != Kind::U32 {
+                continue;
+            }
             let mut ops = vec![];
             for f in 0..4 {
                 ops.push(Op::Generate(f));
@@ -379,7 +391,7 @@ pub fn main() {
         Report {
             prop: PROP,
             level: "exploration",
-            rule: "case = (operation and receiver/argument form, N in {0..8,12,16,17,33,64,256,1024}, element kind, seeded element values): generate x4 forms (owned, via &, via &mut, boxed), map x4, zip x10 (nine stack forms + boxed x boxed), fold x4, Clone (stack, boxed), Default (stack, default_boxed); element kinds u32, String, drop-tracked, zero-sized tracked, and a type without drop glue whose Clone/Default are observable. \
+            rule: "case = (operation and receiver/argument form, N in {0..8,12,16,17,33,64,256,1024} (u32 elements additionally 9,15,31,63,65,100,127,129,200,255,257,300,511,513,1000,1023,2048,4096), element kind, seeded element values): generate x4 forms (owned, via &, via &mut, boxed), map x4, zip x10 (nine stack forms + boxed x boxed), fold x4, Clone (stack, boxed), Default (stack, default_boxed); element kinds u32, String, drop-tracked, zero-sized tracked, and a type without drop glue whose Clone/Default are observable. \
                    Oracle: the stateful, non-commutative closure's call log must be exactly calls 0..N-1 with arguments (i) / (a[i]) / (a[i], b[i]) / (acc, a[i]) in ascending order, and the result must equal the same computation on slices; Clone/Default order is observed through identities and call logs. \
                    non-trivial = N >= 2; distinct = distinct (form, N, kind, values)",
             exhaustive: false,
